@@ -1,7 +1,7 @@
 #!/usr/bin/env python3
 """Detection matrix: every seeded change (applied in memory to /repo's tree) x every property check.
 
-usage: tools/matrix.py [--own] [glob]     --own: only the variant's own property
+usage: tools/matrix.py [--own] [--merge] [glob]     --own: only the variant's own property; --merge: update the rows of the matching variants in MATRIX.json
 Writes /verif/seeded/MATRIX.json and prints one line per variant.
 """
 import fnmatch
@@ -28,7 +28,8 @@ def one(job):
 def main():
     args = sys.argv[1:]
     own = "--own" in args
-    args = [a for a in args if a != "--own"]
+    merge = "--merge" in args
+    args = [a for a in args if a not in ("--own", "--merge")]
     pat = args[0] if args else "*"
     seeded = os.path.join(VERIF, "seeded")
     read = Repo().read
@@ -61,7 +62,11 @@ def main():
         print(f"{'ok  ' if ok else 'MISS'} {name:14s} own={ownp} rules={','.join(row.get(ownp, {}).get('rules', []))} also={','.join(p for p in hit if p != ownp)}"
               + (f" analysis-error={','.join(err)}" if err else ""))
     print(f"{len(matrix)} variants, {missed} missed by their own property's check")
-    if not own and pat == "*":
+    if not own and merge and pat != "*":
+        full = json.load(open(os.path.join(seeded, "MATRIX.json")))
+        full.update(matrix)
+        matrix = full
+    if not own and (pat == "*" or merge):
         with open(os.path.join(seeded, "MATRIX.json"), "w") as fh:
             json.dump(matrix, fh, indent=1, sort_keys=True)
 
